@@ -16,11 +16,23 @@ import (
 	"go/token"
 	"sort"
 	"strconv"
+
+	"github.com/BondMachineHQ/BondMachine/pkg/bondgo"
 )
 
 type refBudget struct {
 	MaxEvals  int // AST nodes evaluated per routine
 	MaxWrites int // IOWrite calls per routine
+}
+
+// refReading selects, construct by construct, the compiler's reading of the source instead of Go's. The
+// zero value is Go. The alternative readings are never the oracle: they are used only after a mismatch, to
+// decide whether a recorded finding explains it completely (the machine then agrees with the alternative
+// reading) or something else is wrong as well.
+type refReading struct {
+	OctalAsDecimal        bool // 017 read as seventeen
+	BreakInSwitchEndsLoop bool // a break whose innermost target is a switch leaves the enclosing for
+	SkipEffectCallStmts   bool // f(...) used as a statement does nothing at all
 }
 
 // OutKey identifies a source-level output: routine and declaration index of the Output variable in it.
@@ -35,6 +47,7 @@ type RoutineRes struct {
 	Writes  int
 	Streams map[int][]uint64 // declaration index of the output variable -> values written
 	Gids    map[int]int      // declaration index -> global id given to bondgo.Make
+	Inner   map[int]bool     // outputs declared inside a called function (not by the routine's own body)
 	InGids  map[int]int      // declaration index of the input variable -> global id
 	EqTrue  int              // `==` comparisons that evaluated to true
 	EqFalse int
@@ -105,6 +118,7 @@ type interp struct {
 	depth  int
 	vars   map[string]bool
 	ret    []uint64
+	rd     refReading
 }
 
 func fail(format string, a ...any) { panic(refErr{fmt.Sprintf(format, a...)}) }
@@ -118,11 +132,16 @@ func parseSrc(src string) (*token.FileSet, *ast.File, error) {
 // RefEval interprets the program. err != nil means the program is outside what the evaluator models
 // (the caller counts the case as excluded, never as a verdict).
 func RefEval(src string, rsize int, inVals []uint64, bud refBudget) (res RefResult, err error) {
+	return RefEvalAs(src, rsize, inVals, bud, refReading{})
+}
+
+// RefEvalAs interprets the program under the given reading (see refReading).
+func RefEvalAs(src string, rsize int, inVals []uint64, bud refBudget, rd refReading) (res RefResult, err error) {
 	_, f, perr := parseSrc(src)
 	if perr != nil {
 		return res, perr
 	}
-	it := &interp{funcs: map[string]*ast.FuncDecl{}, inVals: inVals, bud: bud, vars: map[string]bool{}}
+	it := &interp{funcs: map[string]*ast.FuncDecl{}, inVals: inVals, bud: bud, vars: map[string]bool{}, rd: rd}
 	if rsize >= 64 {
 		it.mask = ^uint64(0)
 	} else {
@@ -147,7 +166,7 @@ func RefEval(src string, rsize int, inVals []uint64, bud refBudget) (res RefResu
 	}
 	queue := []string{"main"}
 	for i := 0; i < len(queue); i++ {
-		rr := RoutineRes{Func: queue[i], Streams: map[int][]uint64{}, Gids: map[int]int{}, InGids: map[int]int{}}
+		rr := RoutineRes{Func: queue[i], Streams: map[int][]uint64{}, Gids: map[int]int{}, InGids: map[int]int{}, Inner: map[int]bool{}}
 		it.cur = &rr
 		it.nOut, it.nIn = 0, 0
 		it.goList = nil
@@ -238,6 +257,9 @@ func (it *interp) stmt(s ast.Stmt, sc *scope) ctrl {
 				switch {
 				case isBondgoSel(vs.Type, "Output"):
 					it.declare(sc, n.Name, &cell{kind: kOut, idx: it.nOut})
+					if it.depth > 0 {
+						it.cur.Inner[it.nOut] = true
+					}
 					it.nOut++
 				case isBondgoSel(vs.Type, "Input"):
 					it.declare(sc, n.Name, &cell{kind: kIn, idx: it.nIn})
@@ -454,7 +476,10 @@ func (it *interp) stmt(s ast.Stmt, sc *scope) ctrl {
 				continue
 			}
 			if c == cBreak {
-				return cNone
+				if it.rd.BreakInSwitchEndsLoop {
+					return cBreak
+				}
+				return cNone // Go: an unlabelled break inside a switch clause ends the switch
 			}
 			return c
 		}
@@ -486,8 +511,11 @@ func (it *interp) stmt(s ast.Stmt, sc *scope) ctrl {
 		if isBondgoSel(ce.Fun, "Void") {
 			return cNone
 		}
-		if _, ok := ce.Fun.(*ast.Ident); ok {
-			it.call(ce, sc) // results discarded
+		if id, ok := ce.Fun.(*ast.Ident); ok {
+			if it.rd.SkipEffectCallStmts && hasEffect(it.funcs, it.funcs[id.Name], 0) {
+				return cNone
+			}
+			it.call(ce, sc) // results discarded, side effects (IOWrite inside the callee) stay
 			return cNone
 		}
 		fail("unsupported call statement")
@@ -569,9 +597,13 @@ func (it *interp) expr(e ast.Expr, sc *scope) uint64 {
 		if x.Kind != token.INT {
 			fail("non-integer literal")
 		}
-		v, err := strconv.ParseUint(x.Value, 0, 64)
+		v, err := strconv.ParseUint(x.Value, 0, 64) // base 0: Go's literal syntax (017 is fifteen, 0x, 0b, 0o, 1_0)
 		if err != nil {
 			fail("literal %s", x.Value)
+		}
+		if it.rd.OctalAsDecimal && legacyOctal(x.Value) {
+			v, _ = strconv.ParseUint(x.Value, 10, 64)
+			v &= it.mask
 		}
 		if v&^it.mask != 0 {
 			fail("literal %s overflows the register type", x.Value)
@@ -712,6 +744,48 @@ type Facts struct {
 	LeakDecl      []string // … of a name that is also visible further out: the inner binding outlives its Go scope
 	DefineIgnored []string // name := … where that map already holds the name: the statement is dropped
 	RedeclSameMap []string // var name … where that map already holds the name: clean "name already used"
+	// round 4
+	OctalLits       []string // legacy octal literals (017) whose decimal reading is another number
+	BreakInSwitch   int      // unlabelled break whose innermost breakable statement is a switch that is itself inside a for
+	EffectCallStmt  []string // f(...) used as a statement where f (or a function it calls) writes an output, sends or starts a goroutine
+	IOIdsExhausted  []string // routines whose Input (or Output) declarations plus Make calls outnumber the allocator's local ids
+	IOMakeOrder     []string // routines whose Make calls on outputs (inputs) do not follow the declaration order of the variables, or that declare one after a Make
+	GoMultiValueArg []string // go f(a, b, …) with two or more by-value arguments
+}
+
+// legacyOctal: a literal Go reads in base eight because of its leading zero (not 0x…, 0b…, 0o…).
+func legacyOctal(v string) bool {
+	if len(v) < 2 || v[0] != '0' {
+		return false
+	}
+	for _, r := range v[1:] {
+		if r < '0' || r > '7' {
+			return false
+		}
+	}
+	return true
+}
+
+// hasEffect: the function's body (or a function it calls) writes an output, sends on a channel or starts a goroutine.
+func hasEffect(funcs map[string]*ast.FuncDecl, fd *ast.FuncDecl, depth int) bool {
+	if fd == nil || fd.Body == nil || depth > 8 {
+		return false
+	}
+	found := false
+	ast.Inspect(fd.Body, func(n ast.Node) bool {
+		switch x := n.(type) {
+		case *ast.SendStmt, *ast.GoStmt:
+			found = true
+		case *ast.CallExpr:
+			if isBondgoSel(x.Fun, "IOWrite") {
+				found = true
+			} else if id, ok := x.Fun.(*ast.Ident); ok && hasEffect(funcs, funcs[id.Name], depth+1) {
+				found = true
+			}
+		}
+		return !found
+	})
+	return found
 }
 
 // gbind is one Go-level binding of a name (block scoping as the language defines it).
@@ -735,6 +809,12 @@ type factWalker struct {
 	maps   map[int]map[string]bool
 	next   int
 	gsc    []map[string]*gbind // Go's scopes, innermost last
+	// per function: the statements an unlabelled break can end, innermost last ("for" / "switch")
+	brk []string
+	// per function: Input/Output variables in declaration order, the targets of the Make calls in textual
+	// order, and whether a declaration of the kind was met after a Make of the kind
+	ioDecl, ioMade map[string][]string
+	ioLate         map[string]bool
 }
 
 func (w *factWalker) goPush() { w.gsc = append(w.gsc, map[string]*gbind{}) }
@@ -829,6 +909,26 @@ func (w *factWalker) exprFacts(e ast.Expr) {
 		switch x := n.(type) {
 		case *ast.Ident:
 			w.goRead(x.Name)
+		case *ast.BasicLit:
+			if x.Kind == token.INT {
+				switch {
+				case legacyOctal(x.Value):
+					dec, _ := strconv.ParseUint(x.Value, 10, 64)
+					oct, _ := strconv.ParseUint(x.Value, 8, 64)
+					if dec != oct {
+						w.lab("lit-legacy-octal")
+						w.f.OctalLits = append(w.f.OctalLits, x.Value)
+					} else {
+						w.lab("lit-leading-zero-same-value")
+					}
+				case len(x.Value) > 2 && (x.Value[1] == 'x' || x.Value[1] == 'X'):
+					w.lab("lit-hex")
+				case len(x.Value) > 2 && (x.Value[1] == 'b' || x.Value[1] == 'B'):
+					w.lab("lit-binary")
+				case len(x.Value) > 2 && (x.Value[1] == 'o' || x.Value[1] == 'O'):
+					w.lab("lit-0o")
+				}
+			}
 		case *ast.BinaryExpr:
 			switch x.Op {
 			case token.ADD, token.MUL, token.EQL:
@@ -906,12 +1006,26 @@ func (w *factWalker) stmt(s ast.Stmt) {
 					w.f.Channels++
 				case *ast.SelectorExpr:
 					w.lab("var-" + t.Sel.Name)
+					if isBondgoSel(t, "Input") || isBondgoSel(t, "Output") {
+						k := t.Sel.Name
+						w.ioDecl[k] = append(w.ioDecl[k], n.Name)
+						if len(w.ioMade[k]) > 0 {
+							w.ioLate[k] = true
+						}
+					}
 				}
 			}
 		}
 	case *ast.AssignStmt:
-		for _, r := range x.Rhs {
+		for i, r := range x.Rhs {
 			w.exprFacts(r)
+			if ce, ok := r.(*ast.CallExpr); ok && isBondgoSel(ce.Fun, "Make") && len(ce.Args) == 2 && len(x.Lhs) == len(x.Rhs) {
+				if se, ok := ce.Args[0].(*ast.SelectorExpr); ok {
+					if id, ok := x.Lhs[i].(*ast.Ident); ok {
+						w.ioMade[se.Sel.Name] = append(w.ioMade[se.Sel.Name], id.Name)
+					}
+				}
+			}
 		}
 		if x.Tok == token.DEFINE {
 			for _, l := range x.Lhs {
@@ -996,7 +1110,9 @@ func (w *factWalker) stmt(s ast.Stmt) {
 		if x.Cond != nil {
 			w.exprFacts(x.Cond)
 		}
+		w.brk = append(w.brk, "for")
 		w.stmt(x.Body)
+		w.brk = w.brk[:len(w.brk)-1]
 		if x.Post != nil {
 			w.stmt(x.Post)
 		}
@@ -1009,6 +1125,7 @@ func (w *factWalker) stmt(s ast.Stmt) {
 			w.exprFacts(x.Tag)
 		}
 		w.pushCtx()
+		w.brk = append(w.brk, "switch")
 		for i, cl := range x.Body.List {
 			cc := cl.(*ast.CaseClause)
 			for _, e := range cc.List {
@@ -1029,6 +1146,7 @@ func (w *factWalker) stmt(s ast.Stmt) {
 			w.stmts(cc.Body)
 			w.goPop()
 		}
+		w.brk = w.brk[:len(w.brk)-1]
 		w.pop()
 	case *ast.ExprStmt:
 		if ce, ok := x.X.(*ast.CallExpr); ok {
@@ -1040,6 +1158,10 @@ func (w *factWalker) stmt(s ast.Stmt) {
 			} else if id, ok := ce.Fun.(*ast.Ident); ok {
 				w.lab("call-stmt")
 				w.f.CallStmt = append(w.f.CallStmt, id.Name)
+				if hasEffect(w.funcs, w.funcs[id.Name], 0) {
+					w.lab("call-stmt-with-effect")
+					w.f.EffectCallStmt = append(w.f.EffectCallStmt, id.Name)
+				}
 			}
 		}
 	case *ast.ReturnStmt:
@@ -1048,6 +1170,20 @@ func (w *factWalker) stmt(s ast.Stmt) {
 		}
 	case *ast.BranchStmt:
 		w.lab(x.Tok.String())
+		if x.Tok == token.BREAK && x.Label == nil && len(w.brk) > 0 && w.brk[len(w.brk)-1] == "switch" {
+			inFor := false
+			for _, b := range w.brk {
+				if b == "for" {
+					inFor = true
+				}
+			}
+			if inFor {
+				w.lab("break-in-switch-in-for")
+				w.f.BreakInSwitch++
+			} else {
+				w.lab("break-in-switch-outside-loop")
+			}
+		}
 	case *ast.SendStmt:
 		w.lab("chan-send")
 		w.f.HasChan = true
@@ -1055,16 +1191,31 @@ func (w *factWalker) stmt(s ast.Stmt) {
 	case *ast.GoStmt:
 		w.lab("go")
 		w.f.HasGo = true
+		for _, a := range x.Call.Args {
+			w.exprFacts(a)
+		}
 		if id, ok := x.Call.Fun.(*ast.Ident); ok {
 			if fd := w.funcs[id.Name]; fd != nil && fd.Type.Params != nil {
+				nval := 0
 				for _, p := range fd.Type.Params.List {
+					np := len(p.Names)
+					if np == 0 {
+						np = 1
+					}
 					if _, isChan := p.Type.(*ast.ChanType); !isChan {
-						w.f.GoValueArgs = append(w.f.GoValueArgs, id.Name)
-						w.f.Channels++
+						for i := 0; i < np; i++ {
+							w.f.GoValueArgs = append(w.f.GoValueArgs, id.Name)
+							w.f.Channels++
+						}
+						nval += np
 						w.lab("go-value-arg")
 					} else {
 						w.lab("go-chan-arg")
 					}
+				}
+				if nval >= 2 {
+					w.f.GoMultiValueArg = append(w.f.GoMultiValueArg, id.Name)
+					w.lab("go-two-or-more-value-args")
 				}
 			}
 		}
@@ -1095,6 +1246,8 @@ func StaticFacts(src string) (*Facts, error) {
 		w.maps[pm] = map[string]bool{}
 		w.scopes = []factScope{{pm, w.fresh(), false}}
 		w.gsc = []map[string]*gbind{{}}
+		w.brk = nil
+		w.ioDecl, w.ioMade, w.ioLate = map[string][]string{}, map[string][]string{}, map[string]bool{}
 		if fd.Type.Params != nil {
 			for _, p := range fd.Type.Params.List {
 				for _, pn := range p.Names {
@@ -1110,6 +1263,34 @@ func StaticFacts(src string) (*Facts, error) {
 			w.lab("func-result")
 		}
 		w.stmt(fd.Body)
+		for _, k := range []string{"Input", "Output"} {
+			// every declaration and every Make takes one of the allocator's local ids of the kind and keeps it
+			if len(w.ioDecl[k])+len(w.ioMade[k]) > ioLocalIds(k) {
+				w.f.IOIdsExhausted = append(w.f.IOIdsExhausted, n+":"+k)
+				w.lab("io-local-ids-exhausted")
+			}
+			if len(w.ioDecl[k]) >= 3 {
+				w.lab("io-three-or-more-" + k)
+			}
+			bad := w.ioLate[k]
+			for i, v := range w.ioMade[k] {
+				if i >= len(w.ioDecl[k]) || w.ioDecl[k][i] != v {
+					bad = true
+				}
+			}
+			if bad {
+				w.f.IOMakeOrder = append(w.f.IOMakeOrder, n+":"+k)
+				w.lab("io-make-order-differs-from-declaration-order")
+			}
+		}
 	}
 	return fc, nil
+}
+
+// ioLocalIds: how many local ids of the kind the compiler's allocator can hand out per processor.
+func ioLocalIds(kind string) int {
+	if kind == "Input" {
+		return bondgo.MAX_INPUTS
+	}
+	return bondgo.MAX_OUTPUTS
 }
